@@ -250,7 +250,7 @@ Proof.
   destruct (request_entity r) as [eid|e] eqn:He; cbn [bind]; [|discriminate].
   match goal with |- context [bind ?X _] => destruct X as [bl|e] eqn:Hbl end; cbn [bind]; [|discriminate].
   intros H. exists eid, bl. split; [reflexivity|]. split.
-  - intros l ->. injection Hbl as <-. reflexivity.
+  - intros l ->. cbn [binding_list] in Hbl. injection Hbl as <-. reflexivity.
   - exact (pb_loop_ok _ _ _ _ _ _ _ _ _ H).
 Qed.
 
@@ -459,7 +459,7 @@ Lemma index_ignored c md r bindings dt i :
   rq_url r <> Missing ->
   response_args c md (set_index r i) bindings dt = response_args c md r bindings dt.
 Proof.
-  intros Hu. unfold response_args, response_args_with, pick_binding_with, read_url_index, request_entity, set_index.
+  intros Hu. unfold response_args, response_args_with, pick_binding_with, binding_list, read_url_index, request_entity, set_index.
   cbn [rq_kind rq_issuer rq_pbind rq_url rq_index].
   destruct (rq_url r) as [|u]; [contradiction|]. reflexivity.
 Qed.
@@ -479,4 +479,171 @@ Proof.
   exists s, eid, sv. repeat split; try assumption.
   rewrite Hi in Hidx. apply Hidx; [|exact Ht].
   destruct Hu as [-> | ->]; reflexivity.
+Qed.
+
+(* ------------------------------------------------------------------ *)
+(* the other direction of (2): a registered URL is honoured            *)
+(* ------------------------------------------------------------------ *)
+Definition src_known (s : source) (eid typ : str) : bool :=
+  match find_entity s eid with
+  | Some e => match find_role (en_roles e) typ with Some _ => true | None => false end
+  | None => false
+  end.
+Definition store_known (md : mdstore) (eid typ : str) : bool :=
+  existsb (fun s => src_known s eid typ) md.
+
+(* every endpoint dict the store holds for (eid, typ, sname) has Binding and
+   Location — what loading schema-valid metadata gives *)
+Definition src_complete (s : source) (eid typ sname : str) : Prop :=
+  forall sv, in_source s eid typ sname sv -> sv_complete sv = true.
+Definition store_complete (md : mdstore) (eid typ sname : str) : Prop :=
+  forall src, In src md -> src_complete src eid typ sname.
+
+Lemma filter_binding_total srvs b :
+  (forall sv, In sv srvs -> sv_binding sv <> None) -> exists l, filter_binding srvs b = Ok l.
+Proof.
+  induction srvs as [|x srvs IH]; intros Hall; cbn [filter_binding]; [exists []; reflexivity|].
+  destruct (sv_binding x) as [bx|] eqn:Hbx.
+  - destruct IH as [l Hl]. { intros sv Hin. apply Hall. right; exact Hin. }
+    rewrite Hl. eexists; reflexivity.
+  - exfalso. exact (Hall x (or_introl eq_refl) Hbx).
+Qed.
+
+Lemma src_service_shape s eid typ sname b :
+  src_complete s eid typ sname -> py_truthy b = true ->
+  if src_known s eid typ then exists l, src_service s eid typ sname b = Ok (SList l)
+  else src_service s eid typ sname b = Ok SNone.
+Proof.
+  intros Hc Hb. unfold src_known, src_service.
+  destruct (find_entity s eid) as [e|] eqn:He; [|reflexivity].
+  destruct (find_role (en_roles e) typ) as [descs|] eqn:Hr; [|reflexivity].
+  apply find_entity_some in He as [He1 He2]. apply find_role_some in Hr.
+  remember (List.concat (map (of_type sname) descs)) as srvs eqn:Hs.
+  assert (Hall : forall sv, In sv srvs -> sv_binding sv <> None).
+  { intros sv Hin. rewrite Hs in Hin. apply in_services in Hin as [d [Hd [Hsv Ht]]].
+    assert (sv_complete sv = true) as Hcs.
+    { apply Hc. exists e, descs, d. repeat split; assumption. }
+    unfold sv_complete in Hcs. destruct (sv_binding sv); [discriminate|discriminate Hcs]. }
+  destruct srvs as [|x srvs']; [exists []; reflexivity|].
+  rewrite Hb. destruct (filter_binding_total (x :: srvs') b Hall) as [l Hl]. rewrite Hl.
+  exists l; reflexivity.
+Qed.
+
+(* over complete metadata and a non-empty binding string, MetadataStore.service
+   yields a non-empty list, or UnsupportedBinding when some source knows the
+   entity under that role, or UnknownSystemEntity when none does *)
+Lemma store_service_shape md eid typ sname b :
+  store_complete md eid typ sname -> py_truthy b = true -> forall k,
+  match store_service_from md k eid typ sname b with
+  | Ok (SList (_ :: _)) => store_known md eid typ = true
+  | Ok _ => False
+  | Err e => e = if (k || store_known md eid typ)%bool then E_Unsupported else E_UnknownEnt
+  end.
+Proof.
+  intros Hc Hb. unfold store_known.
+  induction md as [|s md IH]; intros k; cbn [store_service_from existsb].
+  - rewrite orb_false_r. destruct k; reflexivity.
+  - assert (Hs := src_service_shape s eid typ sname b (Hc s (or_introl eq_refl)) Hb).
+    assert (IH' := IH (fun src H => Hc src (or_intror H))).
+    destruct (src_known s eid typ).
+    + destruct Hs as [l Hl]. rewrite Hl. destruct l as [|x l]; cbn [sres_truthy orb].
+      * specialize (IH' true). cbn [orb] in IH'.
+        destruct (store_service_from md true eid typ sname b) as [[|[|y l']|]|e];
+          try exact IH'; try reflexivity.
+        rewrite orb_true_r. exact IH'.
+      * reflexivity.
+    + rewrite Hs. cbn [sres_truthy orb]. exact (IH' k).
+Qed.
+
+Lemma find_url_false l u : find_url l u = Ok false -> forall sv, In sv l -> sv_location sv <> Some u.
+Proof.
+  induction l as [|x l IH]; cbn [find_url]; intros H sv Hin; [destruct Hin|].
+  destruct (sv_location x) as [lx|] eqn:Hl; [|discriminate].
+  destruct (str_eqb_spec lx u) as [->|Hne]; [discriminate|].
+  destruct Hin as [<-|Hin]; [congruence|exact (IH H sv Hin)].
+Qed.
+
+Lemma find_url_total l u :
+  (forall sv, In sv l -> sv_location sv <> None) -> exists t, find_url l u = Ok t.
+Proof.
+  induction l as [|x l IH]; intros Hall; cbn [find_url]; [exists false; reflexivity|].
+  destruct (sv_location x) as [lx|] eqn:Hl.
+  - destruct (str_eqb lx u); [exists true; reflexivity|].
+    apply IH. intros sv Hin. apply Hall. right; exact Hin.
+  - exfalso. exact (Hall x (or_introl eq_refl) Hl).
+Qed.
+
+Lemma pb_loop_url_complete md s eid descr u idx :
+  py_truthy u = true ->
+  store_complete md eid (role_key s descr) (svc_name s) ->
+  forall bl, Forall (fun b => py_truthy b = true) bl ->
+  (exists b l sv, In b bl /\ sfunc md s eid b descr = Ok (SList l) /\ In sv l /\ sv_location sv = Some u) ->
+  exists b', pb_loop md s eid descr (Some u) idx bl = Ok (b', u).
+Proof.
+  intros Hu Hc. unfold sfunc, store_service.
+  induction bl as [|b0 bl IH]; intros Hall (b & l & sv & Hin & Hs & Hsv & Hl); [destruct Hin|].
+  inversion Hall as [|? ? Hb0 Hall']; subst.
+  assert (Hknown : store_known md eid (role_key s descr) = true).
+  { assert (Hb : py_truthy b = true). { rewrite Forall_forall in Hall. exact (Hall b Hin). }
+    pose proof (store_service_shape md eid _ _ b Hc Hb false) as Hsh. rewrite Hs in Hsh.
+    destruct l; [destruct Hsh|exact Hsh]. }
+  cbn [pb_loop]. unfold sfunc, store_service.
+  pose proof (store_service_shape md eid _ _ b0 Hc Hb0 false) as Hsh0.
+  destruct (store_service_from md false eid (role_key s descr) (svc_name s) b0) as [[|l0|]|e] eqn:Hs0.
+  - destruct Hsh0.
+  - destruct l0 as [|x0 l0]; [destruct Hsh0|]. cbn [sres_truthy try_binding opt_truthy]. rewrite Hu.
+    assert (Hloc : forall sv', In sv' (x0 :: l0) -> sv_location sv' <> None).
+    { intros sv' Hin'. destruct (store_service_list _ _ _ _ _ _ _ Hs0 sv' Hin') as [[src [Hsrc Hins]] _].
+      pose proof (Hc src Hsrc sv' Hins) as Hcs. unfold sv_complete in Hcs.
+      destruct (sv_binding sv'); [|discriminate Hcs]. destruct (sv_location sv'); [discriminate|discriminate Hcs]. }
+    destruct (find_url_total _ u Hloc) as [t Ht]. rewrite Ht. destruct t.
+    + exists b0. reflexivity.
+    + apply IH; [exact Hall'|]. destruct Hin as [<-|Hin].
+      * exfalso. rewrite Hs0 in Hs. injection Hs as <-. exact (find_url_false _ _ Ht sv Hsv Hl).
+      * exists b, l, sv. repeat split; assumption.
+  - destruct Hsh0.
+  - rewrite Hknown in Hsh0. cbn [orb] in Hsh0. subst e. rewrite str_eqb_refl.
+    apply IH; [exact Hall'|]. destruct Hin as [<-|Hin]; [rewrite Hs0 in Hs; discriminate|].
+    exists b, l, sv. repeat split; assumption.
+Qed.
+
+(* lifted to response_args: over complete metadata, if the URL the request
+   names is the location of an endpoint that MetadataStore.service returns for
+   one of the admitted bindings, the request is answered, to that URL *)
+Lemma response_args_url_honoured both c md r bindings dt s eid bl u :
+  kind_service (rq_kind r) = Some s -> ~ soap_only bindings ->
+  request_entity r = Ok eid -> rq_url r = Has (Some u) -> py_truthy u = true ->
+  binding_list c s bindings (Some r) = Ok bl -> Forall (fun b => py_truthy b = true) bl ->
+  store_complete md eid (kind_role c (rq_kind r) dt) (svc_name s) ->
+  (exists b l sv, In b bl /\ store_service md eid (kind_role c (rq_kind r) dt) (svc_name s) b = Ok (SList l) /\
+                  In sv l /\ sv_location sv = Some u) ->
+  exists b', response_args_with both c md r bindings dt = Ok (Some (b', u)).
+Proof.
+  intros Hk Hns He Hu Ht Hbl Hall Hc Hex.
+  assert (Hsoap : match bindings with Some [b0] => str_eqb b0 B_SOAP | _ => false end = false).
+  { destruct (match bindings with Some [b0] => str_eqb b0 B_SOAP | _ => false end) eqn:H; [|reflexivity].
+    exfalso. exact (Hns (soap_only_dec _ H)). }
+  assert (Hiss : rq_issuer r <> None).
+  { unfold request_entity in He. destruct (rq_issuer r); [discriminate|discriminate He]. }
+  assert (Hgen : forall dt', role_key s (default_descr c (default_descr c dt')) = kind_role c (rq_kind r) dt ->
+            exists b', match pick_binding_with both c md s bindings (default_descr c dt') (Some r) [] with
+                       | Err e => Err e | Ok bd => Ok (Some bd) end = Ok (Some (b', u))).
+  { intros dt' Hrole. unfold pick_binding_with. cbn [py_truthy]. rewrite He. cbn [bind]. rewrite Hbl. cbn [bind].
+    assert (read_url_index both r = (Some u, snd (read_url_index both r))) as ->.
+    { unfold read_url_index. rewrite Hu. reflexivity. }
+    cbn [fst snd].
+    destruct (pb_loop_url_complete md s eid (default_descr c (default_descr c dt')) u
+                (snd (read_url_index both r)) Ht) with (bl := bl) as [b' Hb'].
+    - rewrite Hrole. exact Hc.
+    - exact Hall.
+    - unfold sfunc. rewrite Hrole. exact Hex.
+    - exists b'. rewrite Hb'. reflexivity. }
+  unfold response_args_with.
+  destruct (rq_kind r) eqn:Hkind; cbn [kind_service] in Hk; try discriminate; injection Hk as <-.
+  - destruct (rq_issuer r); [|contradiction]. cbn [bind fst snd]. rewrite Hsoap.
+    apply Hgen. apply (role_key_kind c KAuthn ACS dt); reflexivity.
+  - cbn [bind fst snd]. rewrite Hsoap. apply Hgen. apply (role_key_kind c KLogout SLO dt); reflexivity.
+  - destruct (rq_issuer r); [|contradiction]. cbn [bind fst snd]. rewrite Hsoap.
+    apply Hgen. apply (role_key_kind c KAttrQuery AttrCS dt); reflexivity.
+  - cbn [bind fst snd]. rewrite Hsoap. apply Hgen. apply (role_key_kind c KManageNameID MNI dt); reflexivity.
 Qed.
